@@ -84,6 +84,7 @@ func (e *Engine) callFunction(st *State, fr *Frame, callee *ssa.Function, bindin
 		if ct != nil && !ct.Inline && !(len(st.frames) == 1 && false) {
 			res := e.callByContract(st, fr, callee, ct, args, bindings, resT, pos, ins)
 			setRes(res)
+			e.afterCallEvent(st, fr, callee, args, res, pos, ins)
 			if pd := st.pendingDone; pd != nil {
 				st.pendingDone = nil
 				for _, c := range sortedKeys(pd) {
@@ -809,4 +810,26 @@ func resolveHeapName(n string) string {
 		return hit
 	}
 	return n
+}
+
+// afterCallEvent: "after-call <name>(params):" clauses of the calling function, for callees called by contract; `result`
+// is the value the call returned.
+func (e *Engine) afterCallEvent(st *State, fr *Frame, callee *ssa.Function, args []Val, res Val, pos token.Pos, ins ssa.Instruction) {
+	ct := e.contractFor(fr.fn)
+	if ct == nil || len(ct.Events) == 0 {
+		return
+	}
+	name := funcDisplayName(callee)
+	short := name
+	if callee.Pkg != nil {
+		short = strings.TrimPrefix(name, callee.Pkg.Pkg.Name()+".")
+	}
+	for _, ev := range ct.Events {
+		if ev.Kind != "after-call" || (ev.Target != name && ev.Target != short) {
+			continue
+		}
+		env := e.eventEnv(st, fr, ev, args)
+		e.bindResults(env, callee, res)
+		e.runEvent(st, fr, ev, env, "after("+ev.Target+")", pos, ins)
+	}
 }
